@@ -493,12 +493,12 @@ func (w *World) NewWSSess(c *Ctx, name string, realm wamp.URI, sz serialize.Seri
 	s := &Sess{W: w, Idx: len(w.Sess), Name: name, Realm: realm, Local: false, QSize: qsize, ctl: make(chan int), Dead: make(chan struct{}), closeReq: make(chan struct{}), Hello: hello}
 	s.WSC, s.WSS = cw, sw
 	w.Sess = append(w.Sess, s)
+	// the websocket server's own per-connection code (its protocol table with one
+	// serializer instance per sub-protocol shared by all connections, its settings);
+	// the router it attaches to is a tap that tells the harness which peer it made.
+	// A server is set up before it serves: here, not in the connection's goroutine.
+	srv := w.wsServerFor(qsize, keepAlive)
 	simrt.Go("attach:"+name, func() {
-		// the websocket server's own per-connection code (its protocol table with one
-		// serializer instance per sub-protocol shared by all connections, its settings);
-		// the router it attaches to is a tap that tells the harness which peer it made
-		srv := w.wsServer()
-		srv.OutQueueSize, srv.KeepAlive = qsize, keepAlive
 		srv.VerifHandleWebsocket(sw, wamp.Dict{attachTapKey: s})
 		s.attDone = true
 	})
@@ -529,9 +529,17 @@ func (t attachTap) AttachClient(p wamp.Peer, details wamp.Dict) error {
 	return s.AttErr
 }
 
-func (w *World) wsServer() *router.WebsocketServer {
-	if w.wss == nil {
-		w.wss = router.NewWebsocketServer(attachTap{w.R})
+// wsServerFor returns this world's websocket server with the given settings
+// (one per distinct settings: connections with equal settings share a server
+// and with it the serializer instances, as in a deployment).
+func (w *World) wsServerFor(qsize int, keepAlive time.Duration) *router.WebsocketServer {
+	for _, e := range w.wss {
+		if e.OutQueueSize == qsize && e.KeepAlive == keepAlive {
+			return e
+		}
 	}
-	return w.wss
+	srv := router.NewWebsocketServer(attachTap{w.R})
+	srv.OutQueueSize, srv.KeepAlive = qsize, keepAlive
+	w.wss = append(w.wss, srv)
+	return srv
 }
